@@ -75,10 +75,13 @@ for e in ("be", "le"):
         "from_%s_slice directly (no row there)" % (e, e))
 
 # ---- fmt.rs
-for tr in ("Display", "Binary", "Octal", "LowerHex", "UpperHex"):
+for tr in ("Display", "Debug", "Binary", "Octal", "LowerHex", "UpperHex"):
     row("crate::fmt::<impl core::fmt::%s for %s>::fmt" % (tr, U), "foreign", RUNWRAP,
         "write! into DisplayBuffer<BITS> fails only when more than BITS bytes are written; the longest rendering "
-        "(binary) has BITS digits -- capacity arithmetic, not decided (DESIGN R-TABLE)")
+        "(binary) has BITS digits -- capacity arithmetic, not decided (DESIGN R-TABLE).  Applies to every unwrap in "
+        "the formatter whose receiver is the direct result of write! (side condition), however many chunks are "
+        "written separately", any_ordinal=True, requires=[{"receiver_from": "core::fmt::Write::write_fmt"}],
+        **({"optional": True} if tr == "Debug" else {}))   # Debug delegates to Display today
 row("crate::fmt::DisplayBuffer::<SIZE>::as_str", "foreign", IDX,
     "&buf[..self.len]: len <= SIZE is the struct invariant maintained by write_str (checked `len + s.len() > SIZE` "
     "before writing)")
